@@ -1855,6 +1855,8 @@ func (db *DatabaseCollectionWithUser) PutExistingRevWithBody(ctx context.Context
 	}
 	deleted := body.ExtractDeleted()
 	revid := body.ExtractRev()
+	// _cv is metadata the gateway adds on read; it is not part of a pushed revision's body
+	delete(body, BodyCV)
 
 	newDoc := &Document{
 		ID:        docid,
